@@ -5,6 +5,7 @@ import (
 	"context"
 	"encoding/json"
 	"fmt"
+	"math"
 	"net/http/httptest"
 	"time"
 
@@ -26,7 +27,8 @@ type c41Input struct {
 	Signer   string `json:"signer"`    // current-sharder | miner | former-sharder | unknown | self
 	SignerIx int    `json:"signer_ix"` //
 	SigClass string `json:"sig"`       // valid | other-key | altered-round | altered-hash | empty | garbage
-	Rel      string `json:"rel"`       // lower | equal | higher | far
+	Rel      string `json:"rel"`       // lower | equal | higher | far (relation of Round to the round reported when the input was built)
+	Class    string `json:"class"`     // moderate | one of the boundary classes of c41Small / c41Big / c41Ceil
 	Round    int64  `json:"round"`
 	Hash     string `json:"hash"`
 	// what was sent (recv only)
@@ -47,6 +49,105 @@ type c41Env struct {
 	latest   *chain.LFBTicket
 	maxSeen  int64
 	step     int
+	allowed  []string // boundary classes the generator may use in the current phase
+}
+
+// Boundary rounds (L = the round the node reports when the input is built). The classes of c41Ceil can only be delivered
+// in the last episode of a child: once MaxInt64 is the reported round nothing greater exists.
+var (
+	c41Small      = []string{"minint", "minint+1", "minint+L-1", "minint+L", "minint+L+1", "-1", "0", "L-1", "L", "L+1"}
+	c41Big        = []string{"2^32", "2^53"}
+	c41Ceil       = []string{"maxint-1", "maxint"}
+	c41ExtremeNeg = []string{"minint", "minint+1", "minint+L-1", "minint+L", "minint+L+1"}
+)
+
+// c41Boundary returns the round of a boundary class for the currently reported round cur (false: not representable in int64).
+func c41Boundary(class string, cur int64) (int64, bool) {
+	switch class {
+	case "minint":
+		return math.MinInt64, true
+	case "minint+1":
+		return math.MinInt64 + 1, true
+	case "minint+L-1":
+		if cur < 1 {
+			return 0, false
+		}
+		return math.MinInt64 + (cur - 1), true
+	case "minint+L":
+		if cur < 0 {
+			return 0, false
+		}
+		return math.MinInt64 + cur, true
+	case "minint+L+1":
+		if cur < 0 {
+			return 0, false
+		}
+		return (math.MinInt64 + cur) + 1, true
+	case "-1":
+		return -1, true
+	case "0":
+		return 0, true
+	case "L-1":
+		if cur == math.MinInt64 {
+			return 0, false
+		}
+		return cur - 1, true
+	case "L":
+		return cur, true
+	case "L+1":
+		if cur == math.MaxInt64 {
+			return 0, false
+		}
+		return cur + 1, true
+	case "2^32":
+		return 1 << 32, true
+	case "2^53":
+		return 1 << 53, true
+	case "maxint-1":
+		return math.MaxInt64 - 1, true
+	case "maxint":
+		return math.MaxInt64, true
+	}
+	return 0, false
+}
+
+// c41SatAdd adds d >= 0 to a, stopping at MaxInt64.
+func c41SatAdd(a, d int64) int64 {
+	if a > math.MaxInt64-d {
+		return math.MaxInt64
+	}
+	return a + d
+}
+
+// c41SatSub subtracts d >= 0 from a, stopping at MinInt64.
+func c41SatSub(a, d int64) int64 {
+	if a < math.MinInt64+d {
+		return math.MinInt64
+	}
+	return a - d
+}
+
+func c41Rel(round, cur int64) string {
+	switch {
+	case round < cur:
+		return "lower"
+	case round == cur:
+		return "equal"
+	case round <= c41SatAdd(cur, 5):
+		return "higher"
+	}
+	return "far"
+}
+
+// c41DistanceExceedsInt64 tells whether the true distance between the offered round and the reported one is above MaxInt64.
+func c41DistanceExceedsInt64(round, cur int64) bool {
+	if round < 0 && cur > 0 {
+		return round < math.MinInt64+cur
+	}
+	if round > 0 && cur < 0 {
+		return round > math.MaxInt64+cur
+	}
+	return false
 }
 
 func c41Child(run *mon.Run, tier, name string) {
@@ -104,15 +205,65 @@ func c41Child(run *mon.Run, tier, name string) {
 	if tier == "thorough" {
 		nStreams, nInputs = 20, 150
 	}
+	sweeps := 0
 	for s := 0; s < nStreams; s++ {
+		// first half: the reported round stays moderate; second half: 2^32 and 2^53 are offered as well
+		e.allowed = append([]string{}, c41Small...)
+		if s >= nStreams/2 {
+			e.allowed = append(e.allowed, c41Big...)
+		}
 		rr := r.Fork(fmt.Sprintf("stream%d", s))
 		for i := 0; i < nInputs; i++ {
 			if !e.stepOnce(rr) {
 				return
 			}
 		}
+		if s%2 == 1 {
+			if !e.sweep(r.Fork(fmt.Sprintf("sweep%d", s)), sweeps) {
+				return
+			}
+			sweeps++
+		}
 		run.Checkpoint()
 	}
+	// last episode of this worker: the top of the int64 range. After MaxInt64 has been reported nothing may be adopted any more.
+	e.allowed = append(append(append([]string{}, c41Small...), c41Big...), c41Ceil...)
+	if !e.sweep(r.Fork("ceiling-sweep-a"), sweeps) {
+		return
+	}
+	if e.latest.Round == math.MaxInt64 {
+		run.Count("c41.ceiling_reached", 1)
+	}
+	rr := r.Fork("ceiling-stream")
+	for i := 0; i < nInputs/2; i++ {
+		if !e.stepOnce(rr) {
+			return
+		}
+	}
+	if !e.sweep(r.Fork("ceiling-sweep-b"), sweeps+1) {
+		return
+	}
+}
+
+// c41Require: the minimum coverage of the boundary classes (called by the parent once the children are merged).
+func c41Require(run *mon.Run) {
+	for _, cl := range c41ExtremeNeg {
+		run.RequireMin("c41.class."+cl+".recv_valid_current_sharder", 20)
+		run.RequireMin("c41.class."+cl+".bump", 15)
+		run.RequireMin("c41.class."+cl+".broadcast", 8)
+	}
+	run.RequireMin("c41.distance_exceeds_int64.recv_valid_current_sharder", 40)
+	run.RequireMin("c41.distance_exceeds_int64.recv_other", 10)
+	run.RequireMin("c41.distance_exceeds_int64.bump", 30)
+	run.RequireMin("c41.distance_exceeds_int64.broadcast", 15)
+	run.RequireMin("c41.distance_exceeds_int64.in_burst", 30)
+	run.RequireMin("c41.class.maxint.recv_valid_current_sharder", 8)
+	run.RequireMin("c41.class.maxint-1.recv_valid_current_sharder", 8)
+	run.RequireMin("c41.class.2^32.recv_valid_current_sharder", 8)
+	run.RequireMin("c41.class.2^53.recv_valid_current_sharder", 8)
+	run.RequireMin("c41.ceiling_reached", 4)
+	run.RequireMin("c41.judged_at_maxint", 100)
+	run.Assume("boundary rounds are computed from the round L the node reported before the input (MinInt64, MinInt64+1, MinInt64+L-1, MinInt64+L, MinInt64+L+1, -1, 0, L-1, L, L+1, 2^32, 2^53; MaxInt64-1 and MaxInt64 only in the last episode of each worker, after which every further input must leave the reported round at MaxInt64)")
 }
 
 func (e *c41Env) getLatest() (*chain.LFBTicket, bool) {
@@ -133,28 +284,63 @@ func (e *c41Env) getLatest() (*chain.LFBTicket, bool) {
 	return tk, tk != nil
 }
 
-func (e *c41Env) pickRound(r *mon.Rand) (int64, string) {
+// pickRound returns a round, its relation to the reported round and its generator class.
+func (e *c41Env) pickRound(r *mon.Rand) (int64, string, string) {
 	cur := e.latest.Round
-	switch r.Pick([]int{3, 2, 6, 1}) {
+	switch r.Pick([]int{3, 2, 6, 1, 4}) {
 	case 0:
 		if cur == 0 {
-			return 0, "equal"
+			return 0, "equal", "moderate"
 		}
-		return int64(r.Intn(int(cur))), "lower"
+		if cur < 0 { // only after a violation
+			v := c41SatSub(cur, 1+int64(r.Intn(1000)))
+			return v, c41Rel(v, cur), "moderate"
+		}
+		return int64(r.Intn(int(cur))), "lower", "moderate"
 	case 1:
-		return cur, "equal"
+		return cur, "equal", "moderate"
 	case 2:
-		return cur + 1 + int64(r.Intn(5)), "higher"
+		v := c41SatAdd(cur, 1+int64(r.Intn(5)))
+		return v, c41Rel(v, cur), "moderate"
+	case 3:
+		v := c41SatAdd(cur, 1000+int64(r.Intn(100000)))
+		return v, c41Rel(v, cur), "moderate"
 	}
-	return cur + 1000 + int64(r.Intn(100000)), "far"
+	for try := 0; try < 8 && len(e.allowed) > 0; try++ {
+		cl := e.allowed[r.Intn(len(e.allowed))]
+		if v, ok := c41Boundary(cl, cur); ok {
+			return v, c41Rel(v, cur), cl
+		}
+	}
+	return cur, "equal", "moderate"
 }
 
-func (e *c41Env) mkRecv(r *mon.Rand) *c41Input {
+// roundOf: the round of a forced boundary class, or a generated one.
+func (e *c41Env) roundOf(r *mon.Rand, class string) (int64, string, string, bool) {
+	if class == "" {
+		v, rel, cl := e.pickRound(r)
+		return v, rel, cl, true
+	}
+	v, ok := c41Boundary(class, e.latest.Round)
+	return v, c41Rel(v, e.latest.Round), class, ok
+}
+
+func (e *c41Env) mkRecv(r *mon.Rand) *c41Input { return e.mkRecvF(r, "", -1, -1) }
+
+// mkRecvF builds a received ticket; class "" / signer -1 / sig -1 leave the choice to the generator.
+// It returns nil when the forced boundary class has no int64 value for the reported round.
+func (e *c41Env) mkRecvF(r *mon.Rand, class string, signer, sig int) *c41Input {
 	in := &c41Input{Kind: "recv"}
-	in.Round, in.Rel = e.pickRound(r)
+	var ok bool
+	if in.Round, in.Rel, in.Class, ok = e.roundOf(r, class); !ok {
+		return nil
+	}
 	in.Hash = encryption.Hash(fmt.Sprintf("c41-lfb:%d:%d:%d", mon.Seed(), e.step, in.Round))
 	var wl *world.Wallet
-	switch r.Pick([]int{5, 3, 2, 2}) {
+	if signer < 0 {
+		signer = r.Pick([]int{5, 3, 2, 2})
+	}
+	switch signer {
 	case 0:
 		in.Signer, in.SignerIx = "current-sharder", r.Intn(len(e.w.Sharders))
 		wl = e.w.Sharders[in.SignerIx]
@@ -170,7 +356,10 @@ func (e *c41Env) mkRecv(r *mon.Rand) *c41Input {
 	}
 	in.SharderID = wl.ID
 	tk := chain.LFBTicket{Round: in.Round, SharderID: wl.ID, LFBHash: in.Hash}
-	switch r.Pick([]int{10, 2, 2, 2, 1, 1}) {
+	if sig < 0 {
+		sig = r.Pick([]int{10, 2, 2, 2, 1, 1})
+	}
+	switch sig {
 	case 0:
 		in.SigClass = "valid"
 		in.Sign = wl.Sign(tk.Hash())
@@ -236,7 +425,23 @@ func sameTicket(a, b *chain.LFBTicket) bool {
 	return a.Round == b.Round && a.SharderID == b.SharderID && a.LFBHash == b.LFBHash && a.Sign == b.Sign
 }
 
-// stepOnce submits one input (or one burst), waits for the worker and judges the answer of GetLatestLFBTicket.
+// mkLocal builds a local input (broadcast of an own block / the miner's unsigned bump); nil when the forced class has no value.
+func (e *c41Env) mkLocal(r *mon.Rand, kind, class string) *c41Input {
+	in := &c41Input{Kind: kind, Signer: "self", SigClass: "valid"}
+	if kind == "bump" {
+		in.SigClass = "empty"
+	}
+	var ok bool
+	if in.Round, in.Rel, in.Class, ok = e.roundOf(r, class); !ok {
+		return nil
+	}
+	if kind == "broadcast" {
+		in.Hash = encryption.Hash(fmt.Sprintf("c41-own-lfb:%d:%d", mon.Seed(), e.step))
+	}
+	return in
+}
+
+// stepOnce submits one generated input (or one burst), waits for the worker and judges the answer of GetLatestLFBTicket.
 func (e *c41Env) stepOnce(r *mon.Rand) bool {
 	e.step++
 	var batch []*c41Input
@@ -249,15 +454,61 @@ func (e *c41Env) stepOnce(r *mon.Rand) bool {
 			batch = append(batch, e.mkRecv(r))
 		}
 	case 2:
-		in := &c41Input{Kind: "broadcast", Signer: "self", SigClass: "valid"}
-		in.Round, in.Rel = e.pickRound(r)
-		in.Hash = encryption.Hash(fmt.Sprintf("c41-own-lfb:%d:%d", mon.Seed(), e.step))
-		batch = append(batch, in)
+		batch = append(batch, e.mkLocal(r, "broadcast", ""))
 	default:
-		in := &c41Input{Kind: "bump", Signer: "self", SigClass: "empty"}
-		in.Round, in.Rel = e.pickRound(r)
-		batch = append(batch, in)
+		batch = append(batch, e.mkLocal(r, "bump", ""))
 	}
+	return e.deliver(batch)
+}
+
+// c41BadVariants: (signer, signature) pairs that must never be adopted.
+var c41BadVariants = [][2]int{{0, 1}, {0, 2}, {0, 3}, {0, 4}, {0, 5}, {1, 0}, {2, 0}, {3, 0}}
+
+// sweep delivers every boundary class allowed in the current phase on every path: a ticket validly signed by a sharder of
+// the magic block through the handler, a ticket that must not be adopted (bad signature / signer outside the sharder pool,
+// rotating with n), the unsigned bump, an own-block broadcast, and a burst holding the boundary ticket among generated ones.
+func (e *c41Env) sweep(r *mon.Rand, n int) bool {
+	for ci, cl := range e.allowed {
+		for path := 0; path < 5; path++ {
+			e.step++
+			var batch []*c41Input
+			switch path {
+			case 0:
+				batch = append(batch, e.mkRecvF(r, cl, 0, 0))
+			case 1:
+				v := c41BadVariants[(n+ci)%len(c41BadVariants)]
+				batch = append(batch, e.mkRecvF(r, cl, v[0], v[1]))
+			case 2:
+				batch = append(batch, e.mkLocal(r, "bump", cl))
+			case 3:
+				batch = append(batch, e.mkLocal(r, "broadcast", cl))
+			default:
+				batch = append(batch, e.mkRecv(r), e.mkRecvF(r, cl, 0, 0), e.mkRecv(r))
+				if (n+ci)%2 == 1 {
+					batch = append(batch, e.mkRecvF(r, cl, 0, 0)) // the same boundary round twice in one burst
+				}
+				r.Shuffle(len(batch), func(i, j int) { batch[i], batch[j] = batch[j], batch[i] })
+			}
+			ok := true
+			for _, in := range batch {
+				if in == nil {
+					ok = false // class without an int64 value for the reported round
+				}
+			}
+			if !ok {
+				e.run.Count("c41.class."+cl+".not_representable", 1)
+				continue
+			}
+			if !e.deliver(batch) {
+				return false
+			}
+		}
+	}
+	return true
+}
+
+// deliver submits the inputs of one step, waits for the worker and judges the answer of GetLatestLFBTicket.
+func (e *c41Env) deliver(batch []*c41Input) bool {
 	ctx, cancel := context.WithTimeout(context.Background(), 10*time.Second)
 	for _, in := range batch {
 		switch in.Kind {
@@ -343,9 +594,32 @@ func (e *c41Env) stepOnce(r *mon.Rand) bool {
 			e.run.Count("c41.local_update_judged", 1)
 		}
 	}
+	if prev.Round == math.MaxInt64 {
+		e.run.Count("c41.judged_at_maxint", 1)
+	}
 	for _, in := range batch {
 		e.run.Count(fmt.Sprintf("inputs.%s.%s.%s.%s", in.Kind, in.Signer, in.SigClass, in.Rel), 1)
 		e.run.Distinct(fmt.Sprintf("self=%s|%s|%s|%s|%s|burst=%v|accepted=%v|adopted=%v", e.selfType, in.Kind, in.Signer, in.SigClass, in.Rel, len(batch) > 1, in.accepted, adopted && sameInput(now, in)))
+		how := in.Kind
+		if in.Kind == "broadcast" && e.selfType != "sharder" {
+			how = "broadcast_on_miner" // BroadcastLFBTicket does nothing on a miner
+		}
+		if in.Kind == "recv" {
+			how = "recv_other"
+			if in.Signer == "current-sharder" && in.SigClass == "valid" {
+				how = "recv_valid_current_sharder"
+			}
+		}
+		if in.Class != "moderate" {
+			e.run.Count("c41.class."+in.Class+"."+how, 1)
+			e.run.Distinct(fmt.Sprintf("class=%s|self=%s|%s|%s|%s|burst=%v|adopted=%v", in.Class, e.selfType, in.Kind, in.Signer, in.SigClass, len(batch) > 1, adopted && sameInput(now, in)))
+		}
+		if c41DistanceExceedsInt64(in.Round, prev.Round) {
+			e.run.Count("c41.distance_exceeds_int64."+how, 1)
+			if len(batch) > 1 {
+				e.run.Count("c41.distance_exceeds_int64.in_burst", 1)
+			}
+		}
 	}
 	if e.step%97 == 1 {
 		e.run.Sample(rep)
